@@ -8,6 +8,7 @@ import (
 	"go/token"
 	"os"
 	"os/exec"
+	"path"
 	"path/filepath"
 	"strconv"
 	"strings"
@@ -359,6 +360,22 @@ func runC19(o *hx.Out, r *hx.Rand, thorough bool) {
 			if err != nil {
 				valid = false
 				desc["error"] = "generated code is not valid Go: " + err.Error()
+			}
+			// the stubs use unexported names of the package's other generated files: the file must land where those do,
+			// as the paths / module options say (the rules of protoc-gen-go): next to the source, or under the Go
+			// import path, minus the module prefix
+			imp := strings.SplitN(fdp.GetOptions().GetGoPackage(), ";", 2)[0]
+			baseName := strings.TrimSuffix(path.Base(fdp.GetName()), ".proto") + ".pb.grpchan.go"
+			wantName := path.Join(imp, baseName)
+			switch {
+			case strings.Contains(param, "paths=source_relative"):
+				wantName = path.Join(path.Dir(fdp.GetName()), baseName)
+			case strings.Contains(param, "module=example.com"):
+				wantName = path.Join(strings.TrimPrefix(imp, "example.com/"), baseName)
+			}
+			if got := resp.File[0].GetName(); got != wantName && valid {
+				valid = false
+				desc["error"] = fmt.Sprintf("the stubs were written to %q; the package's generated code is at %q", got, wantName)
 			}
 		}
 		if !valid {
